@@ -344,7 +344,7 @@ def _invoke(it, label, me, args):
         return ("raise", r.name)
 
 
-@rule("C17.rational-identities", props=["C17", "C02", "C03", "C04", "C05", "C06", "C07", "C11", "C16"], min_instances=30, mutants=[
+@rule("C17.rational-identities", props=["C17", "C02", "C03", "C04", "C05", "C06", "C07", "C11", "C16", "C13", "C08", "C12"], min_instances=30, mutants=[
     ("sum numerator na*da + nb*db", ("polynomial", "            nn, nd = na * db + nb * da, da * db", "            nn, nd = na * da + nb * db, da * db")),
     ("equal-denominator shortcut keeps the product denominator", ("polynomial", "            nn = na + nb\n            nd = da", "            nn = na + nb\n            nd = da * db")),
     ("product shortcut returns self when other == 0", ("polynomial", "        if other == 0: return other\n        if other == 1: return self", "        if other == 0: return self\n        if other == 1: return self")),
@@ -464,7 +464,7 @@ MONO_CASES = [
 ]
 
 
-@rule("C17.monomial-cancel", props=["C17", "C02", "C03", "C04", "C05", "C06", "C07"], min_instances=5, mutants=[
+@rule("C17.monomial-cancel", props=["C17", "C02", "C03", "C04", "C05", "C06", "C07", "C08", "C11", "C12", "C13"], min_instances=5, mutants=[
     ("cancelled factor skipped on the numerator only", ("polynomial", "                if f1 == f2:\n                    p1 += 1; p2 += 1; continue;", "                if f1 == f2:\n                    p1 += 1; continue;")),
     ("leftover denominator factors appended to the numerator", ("polynomial", "                    nnd.append(f2); p2 += 1;", "                    nnn.append(f2); p2 += 1;")),
     ("the numerator's factor kept in the denominator", ("polynomial", "                    nnd.append(f2); p2 += 1;", "                    nnd.append(f1); p2 += 1;")),
